@@ -393,7 +393,7 @@ func c02Builder(r *Run) {
 			for _, w := range [][3]string{{"2", "Roots", "rootCertificate"}, {"1", "Intermediates", "intermediateCertificate"}} {
 				if t == w[0] {
 					seen[w[1]] = true
-					r.Check("buildChains:"+w[1]+"-candidates", cand == "p4."+w[1]+".certs[(*x509.CertPool).findPotentialParents(p4."+w[1]+", p0)[(1 + it@"+fmt.Sprint(c.Block().Preds[0].Index)+")]]" || glob("p4."+w[1]+".certs[(*x509.CertPool).findPotentialParents(p4."+w[1]+", p0)[*it@*]]", cand), r.Where(c), w[2]+" candidates are "+cand)
+					r.Check("buildChains:"+w[1]+"-candidates", glob("p4."+w[1]+".certs[(*x509.CertPool).findPotentialParents(p4."+w[1]+", p0)[*it@*]]", cand), r.Where(c), w[2]+" candidates are "+cand)
 					k := r.P.LookupConst("x509." + w[2])
 					r.Check("const:"+w[2], k != nil && k.Val().ExactString() == w[0], "-", w[2]+" = "+w[0])
 				}
